@@ -96,7 +96,8 @@ static void check_block(Hdr *h, const char *where) {
         if (u[-(ptrdiff_t)GUARD + (ptrdiff_t)i] != GUARD_BYTE)
             sim::violation("alloc:underrun", "%s: block #%llu (size %zu, allocated at event %llu): byte %zd before the block was overwritten",
                            where, (unsigned long long)h->id, h->size, (unsigned long long)h->alloc_seq, (ptrdiff_t)GUARD - (ptrdiff_t)i);
-    for (size_t i = h->size; i < h->cap + GUARD; i++)
+    const size_t lent = (size_t)((h->flags >> 8) & 0xFF); // bytes right behind the block that the harness uses as a neighbouring object
+    for (size_t i = h->size + lent; i < h->cap + GUARD; i++)
         if (u[i] != GUARD_BYTE)
             sim::violation("alloc:overrun", "%s: block #%llu (size %zu, allocated at event %llu): byte at offset %zu (past the end) was overwritten",
                            where, (unsigned long long)h->id, h->size, (unsigned long long)h->alloc_seq, i);
@@ -223,7 +224,7 @@ static void *vt_realloc(struct aws_allocator *, void *old, size_t oldsize, size_
         S.moved++;
         return np;
     }
-    if (newsize <= h->cap && !S.rng.chance(S.cfg.p_move)) {
+    if (newsize <= h->cap && !((h->flags >> 8) & 0xFF) && !S.rng.chance(S.cfg.p_move)) {
         // stays in place
         uint8_t *u = user_of(h);
         if (newsize > h->size) memset(u + h->size, S.junk, newsize - h->size);
@@ -306,6 +307,14 @@ void expect_balanced(const char *where) {
 size_t block_size(const void *p) {
     auto it = S.live.find(p);
     return it == S.live.end() ? (size_t)-1 : it->second->size;
+}
+uint8_t *lend_tail(const void *p, size_t n) {
+    auto it = S.live.find(p);
+    if (it == S.live.end()) return nullptr;
+    Hdr *h = it->second;
+    if ((h->flags & 4) || n > 255 || h->size + n > h->cap + GUARD) return nullptr;
+    h->flags = (h->flags & ~(uint64_t)0xFF00) | ((uint64_t)n << 8);
+    return user_of(h) + h->size;
 }
 void expect_zero_on_release(const void *p) {
     auto it = S.live.find(p);
